@@ -189,16 +189,41 @@ func c12checkPrune(c *mc.Ctx, before *c12snapshot, db *stores.MemStore, rs *stor
 	return true
 }
 
-func c12Body(c *mc.Ctx) {
+func c12Body(c *mc.Ctx) { c12BodyWith(c, false) }
+
+// c12Merges: larger histories that contain a merge commit (4 commits, thorough 5), both parent orders,
+// every commit carrying the same small table: the commit walk through second parents and side
+// branches with history of their own.
+func c12Merges(c *mc.Ctx) { c12BodyWith(c, true) }
+
+func c12BodyWith(c *mc.Ctx, merges bool) {
 	pool := c12Pool()
 	nmax := 3
 	if c.Thorough() {
 		nmax = 4
 	}
 	n := 1 + c.Choose(nmax)
+	if merges {
+		n = 4
+		if c.Thorough() {
+			n = 4 + c.Choose(2)
+		}
+	}
 	g := model.ChooseGraph(n, 2, c.Choose)
+	if merges {
+		if !hasMerge(g) {
+			c.Skip()
+		}
+		if c.Choose(2) == 1 {
+			g = g.SwapMergeParents()
+		}
+	}
 	tblOf := make([]int, n)
 	for i := range tblOf {
+		if merges {
+			tblOf[i] = 2
+			continue
+		}
 		tblOf[i] = c.Choose(3)
 		if c.ChooseDev(2) == 1 {
 			tblOf[i] = 3 // the re-keyed table (deviation)
@@ -206,6 +231,9 @@ func c12Body(c *mc.Ctx) {
 	}
 	absent := c.ChooseDev(8)
 	nrefs := c.Choose(3)
+	if merges && nrefs == 0 {
+		c.Skip()
+	}
 	refs := make([]c12ref, nrefs)
 	for i := range refs {
 		refs[i] = c12ref{node: c.Choose(n)}
@@ -382,12 +410,13 @@ func init() {
 		ID:    "C12",
 		Level: "exploration",
 		Rule: "every commit DAG with 1..3 (thorough 4) nodes x every assignment of tables from a pool {300 rows, the same + 1 trailing row (shares a block), 2 rows, the 300 rows again under a two-column key (same blocks, other block indices)} x 0..2 refs on any node x which ref is deleted between prunes, completely; crossed with up to d deviations over: ref kind {head, tag, remote-tracking, transaction ref}, " +
-			"a set of tables absent (shallow commits), a table lacking its profile / a stray block of an absent table. Script per case: prune; delete the chosen ref; prune; prune again. After every prune the store is compared with a reachability model computed on the pre-prune snapshot: " +
+			"a set of tables absent (shallow commits), a table lacking its profile / a stray block of an absent table. Plus every DAG of 4 (thorough 5) commits that contains a merge commit, both parent orders, 1..2 refs on any node. Script per case: prune; delete the chosen ref; prune; prune again. After every prune the store is compared with a reachability model computed on the pre-prune snapshot: " +
 			"every reachable commit and every object of its table that existed is byte-identical and the table still passes the structural oracle; every unreachable commit, every table only they referenced and every block only those tables referenced is gone; the third prune changes nothing; no panic, no error. " +
 			"cli: wrgl prune / wrgl gc after branch deletion and reset on an on-disk repository, exports compared. non-trivial = at least 2 commits and 1 ref; distinct by case description",
 		Assumptions: []string{"refs live in a map-backed store (prune only lists refs)", "tables are drawn from a 3-table pool at the real block size"},
 		Harnesses: []*mc.Harness{
 			{Name: "histories", Body: c12Body, DevBound: map[string]int{"quick": 1, "thorough": 2}, Budget: map[string]time.Duration{"quick": 60 * time.Second, "thorough": 14 * time.Minute}},
+			{Name: "merged-side-branches", Body: c12Merges, DevBound: map[string]int{"quick": 0, "thorough": 1}, Budget: map[string]time.Duration{"quick": 45 * time.Second, "thorough": 10 * time.Minute}},
 			{Name: "cli-prune-gc", Body: c12CLI, Budget: map[string]time.Duration{"quick": 40 * time.Second, "thorough": 3 * time.Minute}},
 		},
 	})
